@@ -47,7 +47,7 @@ PARTIAL = [
     'OS-level write reordering without fsync is below the model: a crash is a truncation of the effect sequence',
     'tensorboard summaries (Logger.log) are stubbed: tensorboard is absent in this environment',
 ]
-CASE_TIMEOUT = 120
+CASE_TIMEOUT = 300
 
 _CK = re.compile(r'^checkpoint_([0-9]{8})$')          # the property's own wording: checkpoint_<8-digit round>
 _TMP = re.compile(r'^checkpoint_([0-9]{8})\.tmp$')
@@ -602,20 +602,25 @@ def _probe(case):
 
 
 def _crash_points(trace, raw_writes, full, rot):
-  """All crash triples for one run: every index 0..len (len = completes, then restarted);
-  for a write group every raw write x prefix class (full) or a rotating choice."""
+  """All crash triples for one run: every index 0..len (len = completes, then restarted).  Bytes written to a
+  file reach the disk only when it is closed (lib/crashfs.py), so while a file is open -- at its write group
+  and at its close -- the crash also chooses the prefix class of the unflushed bytes that survives:
+  all three classes for checkpoint files (and every raw write x class when `full`), a rotating choice for
+  the in-place .tsv files in the quick tier."""
   pts = []
   for k, e in enumerate(trace):
     if e[0] == 'wr':
       nraw = int(raw_writes.get(str(k), 1))
       combos = [(s, c) for s in range(nraw) for c in range(3)]
-      if full or e[1].endswith('.tmp') or _CK.match(e[1]):
-        pick = [(0, c) for c in range(3)] if not full else combos
-        if not full and nraw > 1:
-          pick.append((1, (rot + k) % 3))
+      if full:
+        pick = combos
+      elif e[1].endswith('.tmp') or _CK.match(e[1]):
+        pick = [(0, c) for c in range(3)] + ([(1, (rot + k) % 3)] if nraw > 1 else [])
       else:
-        pick = [combos[(rot + k) % len(combos)]]
+        pick = [combos[(rot + k) % len(combos)], (nraw - 1, 2 - (rot + k) % 3)]
       pts += [[k, s, c] for s, c in pick]
+    elif e[0] == 'cl':
+      pts += [[k, 0, c] for c in (range(3) if full else sorted({0, 1 + (rot + k) % 2}))]
     else:
       pts.append([k, 0, 0])
   pts.append([len(trace), 0, 0])
